@@ -1213,6 +1213,11 @@ class Evaluator:
                     (n, p), = outv.items()
                     return ("variant", "std::ops::ControlFlow", n, p)
                 return ("vsum", "std::ops::ControlFlow", tuple(sorted(outv.items())))
+            # opaque operand: split it by the kind of the Try type so that `?` on it still yields a proper None / Err value
+            if "option::Option" in c:
+                return ("vsum", "std::ops::ControlFlow", (("Break", (("variant", "std::option::Option", "None", ()),)), ("Continue", (self._payload(x, "Some", 0),))))
+            if "result::Result" in c:
+                return ("vsum", "std::ops::ControlFlow", (("Break", (("variant", "std::result::Result", "Err", (self._payload(x, "Err", 0),)),)), ("Continue", (self._payload(x, "Ok", 0),))))
             return ("call", "Try::branch", (x,))
         if re.search(r"FromResidual(<.*>)?>?::from_residual$", c) or c.endswith("::from_residual"):
             x = args[0]
